@@ -688,11 +688,12 @@ def _run_cases(P, prop_id, tier, seed, rng, t0, broken, notes, axioms, driver_ok
     # have changed in value; what has to be re-established is that the model still mirrors the code, and that is what the
     # differential run shows - so run more of it (fresh generated cases, model AND implementation, oracle on every case).
     escalated = 0
-    if STATE.get('shape_changed') and not failures and not disagreements and not broken and not replay and exes and driver_ok:
+    _known_sigs0 = {k0['sig'] for k0 in known}
+    if STATE.get('shape_changed') and not [f for f in failures if f['sig'] not in _known_sigs0] and not disagreements and not broken and not replay and exes and driver_ok:
         budget_s = 240 if tier == 'quick' else 1800
         ts = time.time()
         k = 0
-        while time.time() - ts < budget_s and not failures and not disagreements and k < 6:
+        while time.time() - ts < budget_s and not [f for f in failures if f['sig'] not in _known_sigs0] and not disagreements and k < 6:
             k += 1
             r2 = random.Random(rng.random())
             extra = [c for c in P.generate(r2, 'quick') if c.harness in exes]
